@@ -38,6 +38,9 @@ func runC06(c *core.Ctx) {
 	ruleCopyReset(c, "C06.copyreset")
 	c.Rule("C06.exprcopy", "A6: F114: when an evaluator type keeps an ExecutionState of its own inside the evaluator tree (EvalLambdaNode), expression.CopyReset and Reset build the tree anew from the node instead of sharing it between the per-group copies")
 	c06ExprCopy(c, "C06.exprcopy")
+	if r := c.P.Pkg(""); r != nil {
+		c06RowIndex(c, r)
+	}
 
 	root := c.P.Pkg("")
 	edge := c.P.Pkg("edge")
